@@ -112,6 +112,8 @@ def _seq_from_iterable(I, v, kind, elemcheck=None):
 
 def _check_byte_range(I, seq):
     """ValueError if an element is outside 0..255 (bytes()/bytearray() of an int sequence)."""
+    if getattr(I, "spec_depth", 0) > 0 or getattr(I, "pure_depth", 0) > 0:
+        return  # specification context: total functions, ranges are the spec's responsibility
     if seq.kind in ("bytes", "bytearray"):
         return
     if seq.kind == "str":
@@ -992,7 +994,7 @@ def struct_unpack(I, args, kw, prefix_ok=False):
     for code, cnt in codes:
         if code == "s":
             ct = to_term(cnt, "int")
-            part = seqops.slice_(seq, mk("int", z3.simplify(pos)), mk("int", z3.simplify(pos + ct)))
+            part = seqops.subseq(seq, mk("int", z3.simplify(pos)), mk("int", z3.simplify(pos + ct)))
             out.append(I.box_seq(part.with_kind("bytes")))
             pos = pos + ct
             continue
